@@ -217,21 +217,22 @@ GcdExtAccept(ev, b) ==
     /\ Normal(ev.d, ev.w) /\ Normal(ev.e, ev.w)
     /\ Bezout(Val(ev.c), Val(ev.d), Val(ev.e), a, b)
 
-(* bn_gcd_ext_mid: two independent short vectors (c, d), (e, f) of the      *)
-(* lattice { (x, y) : x + y*a = 0 (mod b) }; driven for 1 < a < b coprime   *)
+(* bn_gcd_ext_mid: two independent vectors (c, d), (e, f) of the lattice    *)
+(* { (x, y) : x + y*a = 0 (mod b) } spanning it (determinant +-b), the first *)
+(* with both components at most sqrt(2b); driven for 1 < a < b coprime       *)
 GcdMidAccept(ev) ==
     LET a == Val(ev.a)  b == Val(ev.b)
         c == Val(ev.c)  d == Val(ev.d)  e == Val(ev.e)  f == Val(ev.f)
         InLat(x, y) == IModPos(IAdd(x, IMul(y, a)), b.mag) = <<>>
         det == ISub(IMul(c, f), IMul(d, e))
-        short(x) == BBits(x.mag) <= (BBits(b.mag) \div 2) + 2
+        short(x) == BLe(BMul(x.mag, x.mag), BShl(b.mag, 1))    \* |x| <= sqrt(2b): the code stops at floor(sqrt(b))
     IN  IF a.neg \/ b.neg \/ ~BLt(<<1>>, a.mag) \/ ~BLt(a.mag, b.mag) \/ BGcd(a.mag, b.mag) # <<1>>
-           \/ BLt(b.mag, <<16>>)
+           \/ BLt(b.mag, <<32>>)
         THEN TRUE
         ELSE /\ Done(ev)
              /\ InLat(c, d) /\ InLat(e, f)
              /\ det.mag = b.mag
-             /\ short(c) /\ short(d) /\ short(e) /\ short(f)
+             /\ short(c) /\ short(d)                     \* the first vector is short by construction
 
 (***************************************************************************)
 (* the acceptance relation                                                 *)
@@ -243,7 +244,11 @@ BntAccept(e) ==
       [] e.op = "bn_mod_barrt" ->
             IF ~PosMod(e) THEN e.perr # 0
             ELSE /\ e.perr = 0 /\ e.u.s = 0 /\ MagOf(e.u) = BarrtConst(e)
-                 /\ RetN(e, e.c, IModPos(Val(e.a), MagOf(e.m)))
+                 /\ \/ RetN(e, e.c, IModPos(Val(e.a), MagOf(e.m)))
+                    \* the quotient estimate (a div B^(k-1)) * u must fit the physical capacity
+                    \/ /\ MustThrow(e)
+                       /\ DigitsOf(Val(e.a), e.w) <= 2 * e.m.u
+                       /\ (DigitsOf(Val(e.a), e.w) - e.m.u + 1) + DigitsOf(Val(e.u), e.w) > e.cap
       [] e.op \in {"bn_mod_monty_basic", "bn_mod_monty_comba"} ->
             IF ~OddPosMod(e) THEN e.perr # 0
             ELSE /\ e.perr = 0 /\ IsMontyConst(e)
@@ -379,9 +384,9 @@ BntKnownKey(e) ==
     CASE e.op = "bn_mod_barrt" /\ PosMod(e) /\ e.perr = 0 /\ e.a.s = 1 /\ MagOf(e.a) # <<>>
               /\ BLt(MagOf(e.a), MagOf(e.m)) /\ Ret(e, e.c, Val(e.a))
             -> "C09-barrt-negative-below-modulus"
-      [] e.op = "bn_mod_pmers" /\ PosMod(e) /\ e.perr = 0 /\ e.a.s = 1 /\ MagOf(e.a) # <<>>
+      [] e.op \in {"bn_mod_pmers", "bn_mod_barrt"} /\ PosMod(e) /\ e.perr = 0 /\ e.a.s = 1 /\ MagOf(e.a) # <<>>
               /\ BMod(MagOf(e.a), MagOf(e.m)) = <<>> /\ Ret(e, e.c, Val(e.m))
-            -> "C09-pmers-negative-multiple"
+            -> "C09-modred-negative-multiple"
       [] e.op = "bn_mod_inv" /\ PosMod(e) /\ MagOf(e.m) # <<1>> /\ e.a.s = 1
               /\ BGcd(MagOf(e.a), MagOf(e.m)) = <<1>>
               /\ Done(e) /\ Normal(e.c, e.w) /\ e.c.s = 0 /\ BLt(MagOf(e.c), MagOf(e.m))
@@ -397,10 +402,23 @@ BntKnownKey(e) ==
               /\ Ret(e, e.c, IGcd(Val(e.a), DigVal(e)))
               /\ Bezout(Val(e.c), Val(e.d), Val(e.e), IAbs(Val(e.a)), DigVal(e))
             -> "C09-gcdext-negative-operand"
+      [] e.op = "bn_gcd_ext_binar" /\ MagOf(e.a) # <<>> /\ MagOf(e.b) # <<>>
+              /\ BMod(MagOf(e.a), MagOf(e.b)) = <<>> /\ MustThrow(e)
+            -> "C09-gcdext-binar-second-divides-first"
       [] e.op = "CRASH" /\ HasField(e, "in") /\ e.in = "bn_rec_win" /\ e.kb >= 1 /\ e.kb < e.rw
             -> "C09-recwin-scalar-shorter-than-window"
       [] e.op = "bn_gen_prime_stron" /\ Done(e) /\ Normal(e.c, e.w) /\ e.c.s = 0
-              /\ BIsPrime(MagOf(e.c)) /\ BBits(MagOf(e.c)) < e.bits /\ BBits(MagOf(e.c)) >= e.bits - 8
+              /\ BIsPrime(MagOf(e.c)) /\ BBits(MagOf(e.c)) < e.bits
             -> "C09-genprime-stron-short"
+      [] e.op = "bn_rec_jsf" /\ e.err = 0 /\ e.ovf
+              /\ BBits(MagOf(e.l)) > BBits(KMag(e)) /\ e.rcap >= 2 * BBits(KMag(e)) + 1
+              /\ e.rcap < 2 * (BBits(MagOf(e.l)) + 1)
+            -> "C09-recjsf-capacity-check-first-scalar-only"
+      [] e.op = "bn_smb_jac" /\ e.w <= 2 /\ e.bnmod # "" /\ e.b.s = 0 /\ BBit(MagOf(e.b), 0) = 1
+              /\ Done(e) /\ e.ret \in {0 - 1, 0, 1}
+            -> "C09-arch-tzcnt-small-digits"
+      [] e.op = "bn_is_prime_solov" /\ e.w <= 2 /\ e.a.s = 0 /\ BBit(MagOf(e.a), 0) = 1
+              /\ Done(e) /\ e.ret = 0 /\ BIsPrime(MagOf(e.a))
+            -> "C09-arch-tzcnt-small-digits"
       [] OTHER -> ""
 =============================================================================
